@@ -1,7 +1,7 @@
 (* C18 — foreign C functions see the published value representation. *)
 From Coq Require Import List Bool Arith NArith.
 Import ListNotations.
-From DDP Require Import Lower.Abi Lower.AbiProofs.
+From DDP Require Import Gen.AbiTables Lower.Abi Lower.AbiProofs.
 
 (* The signature the compiler declares for a function (in the declaring module through VisitFuncDecl, in
    an importing module through declareImportedFuncDecl — the same transcription) is, parameter by
@@ -12,6 +12,13 @@ Theorem C18_sig_lowering_is_abi : forall s : signature,
   abi_of_ir (lower_sig s) = abi_of_c (c_sig s) /\ abi_of_ir (lower_sig_imported s) = abi_of_c (c_sig s).
 Proof. exact sig_lowering_is_abi_both. Qed.
 Print Assumptions C18_sig_lowering_is_abi.
+
+(* Field positions: the index constants the compiler uses for (arr, len, cap), (str, cap) and (vtable_ptr, value)
+   are the positions of these fields in the header structs (both re-extracted from /repo on every run). *)
+Theorem C18_field_roles_agree :
+  go_list_roles = hdr_list_roles /\ go_string_roles = hdr_string_roles /\ go_any_roles = hdr_any_roles.
+Proof. exact field_roles_agree. Qed.
+Print Assumptions C18_field_roles_agree.
 
 (* The published convention itself, as a readable statement about c_sig: primitives by value,
    everything else and every Referenz by pointer, a non-primitive result through a leading
